@@ -165,6 +165,12 @@ def run_check(prop, tier, seed, replay=None):
     except build.BuildError as e:
         broken.append({"kind": "harness", "what": e.what, "log": e.log[-4000:]})
 
+    if hasattr(prop, "regenerate"):
+        try:
+            prop.regenerate(build)
+        except build.BuildError as e:
+            broken.append({"kind": "translator", "what": e.what, "log": e.log[-4000:]})
+
     # ---- 2. Lean: property modules + driver
     modules = list(prop.LEAN_MODULES)
     ok, out = build.lake_build(["Tpp.Driver.Run", "driver"])
@@ -402,6 +408,8 @@ def main(argv, props):
         try:
             build.regenerate_consts()
             build.build_harness("exec")
+            from . import statics
+            statics.generate()
         except build.BuildError as e:
             print("setup: build problem:", e.what)
             print(e.log[-3000:])
